@@ -5,7 +5,7 @@
     of each byte first). *)
 From Coq Require Import ZArith List Bool.
 From Low Require Import Lib.Bits Lib.BitSeq Lib.Lex Lib.Bytes Lib.LexExtra_sig Model.Sigbits Spec.SigbitsSpec
-  Spec.SigbitsSpec16x Proofs.SigbitsFirstDiff Proofs.SigbitsCountPrefixes Proofs.SigbitsMeaning Proofs.SigbitsCounters.
+  Spec.SigbitsSpec16x Proofs.SigbitsFirstDiff Proofs.SigbitsCountPrefixes Proofs.SigbitsMeaning Proofs.SigbitsCounters Proofs.SigbitsOrder.
 Import ListNotations.
 Open Scope Z_scope.
 
@@ -170,6 +170,24 @@ Print Assumptions C16_CountPrefixes_single.
 Theorem C16_spec_single_meaning : forall k b, count_trunc k [b] = 1.
 Proof. exact count_trunc_single. Qed.
 Print Assumptions C16_spec_single_meaning.
+
+(** under the size hypothesis every first-difference bit is a non-negative int32 (so the model's
+    unbounded integers and Go's int32 agree on FirstDiffBits and on everything computed from it;
+    the counters lie in [1, e-s] by [C16_counters_shape]) *)
+Theorem C16_FirstDiffBits_fit_int32 : forall keys, keys_i32 keys ->
+  Forall (fun d => 0 <= d <= 2147483647) (spec_FirstDiffBits keys).
+Proof. exact FirstDiffBits_fit_int32. Qed.
+Print Assumptions C16_FirstDiffBits_fit_int32.
+
+(** for a < b (Go string order) the first-difference bit lies inside b, and unless a ends there it
+    is 0 in a and 1 in b -- the bit a trie built from these numbers branches on *)
+Theorem C16_spec_first_diff_bit_order : forall a b, bytes_ok a -> bytes_ok b -> bytes_cmp a b = Lt ->
+  let d := first_diff_bit a b in
+  d < 8 * zlen b /\
+  (d = 8 * zlen a \/
+   (nth (Z.to_nat d) (msb_bits a) false = false /\ nth (Z.to_nat d) (msb_bits b) false = true)).
+Proof. exact first_diff_bit_order. Qed.
+Print Assumptions C16_spec_first_diff_bit_order.
 
 Example C16_widening_nonvacuous :
   let keys := [[98]; []; [97; 0]] in
